@@ -902,30 +902,33 @@ func genZone(r *vh.Rng, wantRecord bool) Zone {
 // Random draws one case.
 func Random(r *vh.Rng) *Case {
 	c := &Case{Zones: map[string]Zone{}}
-	// author domain: any name of the set except ""
+	// author domain: any name of the set except ""; public suffixes themselves are rare authors
 	from := Doms[r.Intn(len(Doms)-1)].Name
+	for from == asciiLower(Doms[domIdx[from]].Org) && asciiLower(from) != "example.com" && r.Chance(60) {
+		from = Doms[r.Intn(len(Doms)-1)].Name
+	}
 	// header shape
 	var counts []int
 	switch k := r.Intn(100); {
-	case k < 70:
-		counts = []int{1}
-	case k < 74:
-		counts = nil
 	case k < 80:
+		counts = []int{1}
+	case k < 83:
+		counts = nil
+	case k < 87:
 		counts = []int{2 + r.Intn(2)}
-	case k < 85:
+	case k < 90:
 		counts = []int{1, 1}
-	case k < 89:
-		counts = []int{0, 1}
-	case k < 91:
-		counts = []int{1, 0}
 	case k < 93:
-		counts = []int{0}
+		counts = []int{0, 1}
+	case k < 94:
+		counts = []int{1, 0}
 	case k < 95:
+		counts = []int{0}
+	case k < 96:
 		counts = []int{0, 0, 1}
-	case k < 97:
-		counts = []int{-1}
 	case k < 98:
+		counts = []int{-1}
+	case k < 99:
 		counts = []int{-1, 1}
 	default:
 		counts = []int{1, 1, 1}
@@ -1014,6 +1017,73 @@ func Random(r *vh.Rng) *Case {
 	c.Seed = int64(r.Intn(1 << 30))
 	c.PriorQ = r.Chance(20)
 	return c
+}
+
+// ---------------------------------------------------------------------------------------------
+// Corpus: hand-made cases that run first in every tier (the witnesses of the defects this check
+// found on the unchanged tree, and one plain case per clause of the property).
+
+func mk(hdr, shape, author string, zones map[string]Zone, res ...Res) *Case {
+	c := &Case{HdrRaw: hdr, Shape: shape, Author: author, Zones: map[string]Zone{}, Res: res}
+	var names []string
+	for n := range zones {
+		names = append(names, n)
+	}
+	// deterministic order
+	for i := range names {
+		for j := i + 1; j < len(names); j++ {
+			if names[j] < names[i] {
+				names[i], names[j] = names[j], names[i]
+			}
+		}
+	}
+	for _, n := range names {
+		c.Zones[n] = zones[n]
+		c.Names = append(c.Names, n)
+	}
+	return c
+}
+
+func txt(records ...string) Zone { return Zone{Kind: "ok", TXT: records} }
+
+func Corpus() []*Case {
+	dk := func(v, d string) Res { return Res{Kind: 'd', Val: v, Dom: d} }
+	spf := func(v, from, helo string) Res { return Res{Kind: 's', Val: v, From: from, Helo: helo} }
+	one := func(d string) string { return "From: Some Body <user@" + d + ">\r\nSubject: x\r\n\r\n" }
+	return []*Case{
+		// upper-case From domain under a two-label suffix: another registrant's signature must not align
+		mk(one("EXAMPLE.CO.UK"), "1", "EXAMPLE.CO.UK", map[string]Zone{"example.co.uk": txt("v=DMARC1; p=reject")},
+			dk("pass", "EVIL.CO.UK"), spf("fail", "example.org", "mx.example.org")),
+		// upper-case subdomain: the organizational domain's policy applies
+		mk(one("Mail.Example.Co.UK"), "1", "Mail.Example.Co.UK", map[string]Zone{"example.co.uk": txt("v=DMARC1; p=reject")},
+			dk("none", ""), spf("fail", "example.org", "mx.example.org")),
+		// the same identifier in another spelling aligns
+		mk(one("example.co.uk"), "1", "example.co.uk", map[string]Zone{"example.co.uk": txt("v=DMARC1; p=reject")},
+			dk("pass", "EXAMPLE.CO.UK"), spf("fail", "example.org", "mx.example.org")),
+		// only a non-DMARC TXT string at the subdomain: the organizational domain's policy applies
+		mk(one("sub.example.com"), "1", "sub.example.com", map[string]Zone{"sub.example.com": txt("v=spf1 -all"), "example.com": txt("v=DMARC1; p=reject")},
+			dk("none", ""), spf("fail", "example.org", "mx.example.org")),
+		// SPF temperror on an identity that is not aligned: alignment is decided, permanent refusal
+		mk(one("example.com"), "1", "example.com", map[string]Zone{"example.com": txt("v=DMARC1; p=reject")},
+			dk("none", ""), spf("temperror", "example.org", "mx.example.org")),
+		// SPF temperror on an aligned identity: undecided, temporary refusal
+		mk(one("example.com"), "1", "example.com", map[string]Zone{"example.com": txt("v=DMARC1; p=reject")},
+			dk("fail", "example.org"), spf("temperror", "sub.example.com", "mx.example.org")),
+		// an empty From field followed by a second one: two fields, no pass
+		mk("From: \r\nFrom: user@example.com\r\nSubject: x\r\n\r\n", "0,1", "", map[string]Zone{"example.com": txt("v=DMARC1; p=none")},
+			dk("pass", "example.com"), spf("pass", "example.com", "mx.example.com")),
+		// plain clauses
+		mk(one("sub.example.com"), "1", "sub.example.com", map[string]Zone{"sub.example.com": {Kind: "nx"}, "example.com": txt("v=DMARC1; p=reject; sp=quarantine")},
+			dk("pass", "example.org"), spf("softfail", "example.org", "mx.example.org")),
+		mk(one("example.com"), "1", "example.com", map[string]Zone{"example.com": {Kind: "temp"}},
+			dk("pass", "example.com"), spf("pass", "example.com", "mx.example.com")),
+		mk(one("example.com"), "1", "example.com", map[string]Zone{"example.com": txt("v=DMARC1; p=reject", "v=DMARC1; p=none")},
+			dk("fail", "example.com"), spf("fail", "example.com", "mx.example.com")),
+		mk(one("example.com"), "1", "example.com", map[string]Zone{"example.com": txt("v=DMARC1; p=reject; adkim=s; aspf=s")},
+			dk("pass", "sub.example.com"), spf("pass", "sub.example.com", "mx.example.com")),
+		mk(one("co.uk"), "1", "co.uk", map[string]Zone{"co.uk": txt("v=DMARC1; p=reject")},
+			dk("pass", "example.co.uk"), spf("pass", "", "co.uk")),
+	}
 }
 
 // ---------------------------------------------------------------------------------------------
